@@ -29,6 +29,10 @@ func register(prop string, corr string, g genFunc) {
 }
 
 func main() {
+	if len(os.Args) == 4 && os.Args[1] == "c20child" {
+		c20Child(os.Args[2], os.Args[3])
+		return
+	}
 	prop := flag.String("prop", "", "property id")
 	seed := flag.Uint64("seed", 1, "seed")
 	tier := flag.String("tier", "quick", "quick|thorough")
